@@ -103,6 +103,11 @@ def programs_for_schema(tier):
     fdef = cls["FunctionDef"](name="helper", params=[("a", "int"), ("b", "float")], body=[cls["VarDecl"](name="t", c_type="float", expr="(a + b)"), cls["ReturnStmt"](expr="t")], return_type="float")
     fvoid = cls["FunctionDef"](name="act", params=[], body=[S(ms=5), cls["ReturnStmt"](expr=None)], return_type="void")
     progs.append(("FunctionDef", [cls["ExprStmt"](expr="helper(1, 2.0)"), cls["ExprStmt"](expr="act()")], [], {"functions": [fdef, fvoid]}))
+    # overloads of one def (specialised per call signature): each call site needs its own overload
+    ftag_i = cls["FunctionDef"](name="tag", params=[("v", "int")], body=[cls["ReturnStmt"](expr="v")], return_type="int")
+    ftag_s = cls["FunctionDef"](name="tag", params=[("v", "String")], body=[cls["ReturnStmt"](expr="v")], return_type="String")
+    progs.append(("FunctionDef-overloads", [cls["VarAssign"](name="cnt", expr="tag(3)"), cls["VarAssign"](name="nm", expr='tag(String("sensor"))')], [],
+                  {"functions": [ftag_i, ftag_s], "global_decls": [cls["VarDecl"](name="cnt", c_type="int", expr="0", global_scope=True), cls["VarDecl"](name="nm", c_type="String", expr='String("")', global_scope=True)]}))
     # a function that measures distance: the generated helper must be declared before it
     fnear = cls["FunctionDef"](name="near", params=[], body=[cls["ReturnStmt"](expr="(__redu_ultrasonic_measure_dev() < 10)")], return_type="bool")
     progs.append(("FunctionDef+ultrasonic", [l2.decl_node("Ultrasonic")], [cls["VarAssign"](name="flag", expr="near()")],
